@@ -9,6 +9,8 @@ import (
 const (
 	idE1 = "(*services/rawmessagesfilter.RawMessageFilter).HandleConsensusRawMessage"
 	idE2 = "(*services/rawmessagesfilter.RawMessageFilter).ConsumeCacheMessages"
+	idE3 = "(*services/termincommittee.TermInCommittee).moveToNextLeaderByElection"
+	idE4 = "(*leanhelix.WorkerLoop).handleUpdateState"
 )
 
 type ingest struct {
@@ -52,18 +54,21 @@ func ingestConfigs() []ingestCfg {
 func runIngest(a *Analyzer, r *Results) {
 	k := a.Anchors()
 	ig := &ingest{a: a, k: k, r: r, vc7: map[string]*Effect{}}
-	for _, id := range []string{idE1, idE2} {
+	for _, id := range []string{idE1, idE2, idE3, idE4} {
 		fn := a.P.Func(id)
 		for _, c := range ingestConfigs() {
+			if (id == idE3 || id == idE4) && c.name != "" {
+				continue // the message case splits do not concern the election / sync entries
+			}
 			w := a.NewWalker(func(e *Effect) { ig.onEffect(e) })
 			w.AutoSplit = true
 			w.Config = c.name
 			w.Assume = c.assume
-			if id == idE2 {
+			{
 				// cache container invariant (rules F2.*, F2.key, F3.*, F6.key, F7 decide it): a message read from the
 				// cache at key K was inserted under the FILTER guards with key = its own height
 				w.Inject = func(e *Effect) []*Atom {
-					if e.Kind != "call" || len(e.Path) != 1 || len(e.Args) < 2 {
+					if e.Kind != "call" || len(e.Args) < 2 || e.Path[len(e.Path)-1].Fn != idE2 {
 						return nil
 					}
 					m := e.Args[len(e.Args)-1]
@@ -89,6 +94,9 @@ func runIngest(a *Analyzer, r *Results) {
 			if len(w.Visited) > r.Stats["ingest.functions"] {
 				r.Stats["ingest.functions"] = len(w.Visited)
 			}
+		}
+		if id == idE3 || id == idE4 {
+			continue
 		}
 		// VC7: under each xor-assumption the vote store must be unreachable
 		short := id[strings.LastIndex(id, ".")+1:]
